@@ -228,19 +228,20 @@ Definition rtcp_rx_ebit (tr : bytes) : bool :=
   negb (N.land (nthb tr 0) (Z.to_N SRTCP_E_BYTE_BIT_c) =? 0)%N.
 Definition rtcp_rx_index (tr : bytes) : Z := Z.land (be32 tr 0) SRTCP_INDEX_MASK_c.
 
-Definition unprotect_rtcp_fun (ss : session) (C : Z) (pkt : bytes) : session * (bytes + Z) :=
+(* everything up to and including the authentication check and the *out_len check *)
+Definition unprotect_rtcp_pre_fun (ss : session) (C : Z) (pkt : bytes) : cpre + Z :=
   let len := lenZ pkt in
-  if len <? 8 + 4 then (ss, inr st_bad_param) else
+  if len <? 8 + 4 then inr st_bad_param else
   let ssrc := be32 pkt 4 in
   match list_get (ss_list ss) ssrc with
-  | None => (ss, inr st_no_ctx)
+  | None => inr st_no_ctx
   | Some st =>
     match receiver_key_st st pkt len (rtcp_tag0 st) with
-    | inr e => (ss, inr e)
+    | inr e => inr e
     | inl (ki, k) =>
       let tag_len := ak_tag (k_rtcp_a k) in
       let msz := s_mki_size st in
-      if len <? 8 + 4 + msz + tag_len then (ss, inr st_bad_param) else
+      if len <? 8 + 4 + msz + tag_len then inr st_bad_param else
       let conf := rtcp_rx_conf st in
       let enc_len := len - (8 + tag_len + msz + 4) in
       let tr := rtcp_rx_trailer pkt tag_len msz in
@@ -250,24 +251,41 @@ Definition unprotect_rtcp_fun (ss : session) (C : Z) (pkt : bytes) : session * (
         if rdb_check (s_rdb st) seq =? st_ok then
           let iv := rtcp_iv (ck_alg (k_rtcp_c k)) ssrc seq in
           match rtcp_rx_prefix (cipher_start (k_rtcp_c k) iv) (ak_prefix (k_rtcp_a k)) with
-          | inr e => (ss, inr e)
+          | inr e => inr e
           | inl pre =>
             let computed := auth_compute (k_rtcp_a k) (slice (zn 0) (zn auth_len) pkt) in
-            if SRTP_MAX_TAG_LEN_c <? lenZ computed then (ss, inr st_model_oob) else
+            if SRTP_MAX_TAG_LEN_c <? lenZ computed then inr st_model_oob else
             let tmp_tag := computed ++ drop (length computed) (snd pre) in
             let t := slice (zn (auth_len + msz)) (zn tag_len) pkt in
             if beqb (take (zn tag_len) (tmp_tag ++ zeros (zn tag_len))) t then
-              if C <? u64 (len - 4 - msz - tag_len) then (ss, inr st_buffer_small) else
-              match rtcp_body (fst pre) conf (slice (zn 8) (zn enc_len) pkt) with
-              | None => (ss, inr st_cipher_fail)
-              | Some o =>
-                let st1 := dir_stream st dir_srtp_receiver_c in
-                let ss1 := dir_session ss ssrc st dir_srtp_receiver_c in
-                (sess_put ss1 ssrc (set_rdb st1 (snd (rdb_add (s_rdb st1) seq))), inl (take 8 pkt ++ o))
-              end
-            else (ss, inr st_auth_fail)
+              if C <? u64 (len - 4 - msz - tag_len) then inr st_buffer_small else
+              inl {| c_ref := RList ssrc; c_ssrc := ssrc; c_seq := seq; c_cs := fst pre; c_conf := conf;
+                     c_enc_len := enc_len; c_tag_len := tag_len; c_mki := msz |}
+            else inr st_auth_fail
           end
-        else (ss, inr (rdb_check (s_rdb st) seq))
-      else (ss, inr st_cant_check)
+        else inr (rdb_check (s_rdb st) seq)
+      else inr st_cant_check
     end
+  end.
+
+(* the effects of an accepted packet: decryption, direction, replay window *)
+Definition unprotect_rtcp_post_fun (ss : session) (u : cpre) (pkt : bytes) : session * (bytes + Z) :=
+  match rtcp_body (c_cs u) (c_conf u) (slice (zn 8) (zn (c_enc_len u)) pkt) with
+  | None => (ss, inr st_cipher_fail)
+  | Some o =>
+    match list_get (ss_list ss) (c_ssrc u) with
+    | None => (ss, inr st_fail)
+    | Some st =>
+      let st1 := dir_stream st dir_srtp_receiver_c in
+      let ss1 := dir_session ss (c_ssrc u) st dir_srtp_receiver_c in
+      (sess_put ss1 (c_ssrc u) (set_rdb st1 (snd (rdb_add (s_rdb st1) (c_seq u)))), inl (take 8 pkt ++ o))
+    end
+  end.
+
+(* srtp_unprotect_rtcp as a function of the session, *out_len and the received packet: final
+   session and either the plain RTCP packet or the error status (explicit stream only, as above) *)
+Definition unprotect_rtcp_fun (ss : session) (C : Z) (pkt : bytes) : session * (bytes + Z) :=
+  match unprotect_rtcp_pre_fun ss C pkt with
+  | inr e => (ss, inr e)
+  | inl u => unprotect_rtcp_post_fun ss u pkt
   end.
